@@ -101,6 +101,114 @@ pub fn ctl_of(i: u64) -> [u8; 16] {
     c
 }
 
+/// A generated `cvar` tuple variation store (well formed, hostile values): accumulation over several tuples active at
+/// the same location with word deltas at the type limits, explicit and all-points point numbers.
+#[derive(Clone, Debug, Serialize, Deserialize)]
+pub struct CvarCase {
+    pub axis_count: u8,
+    /// (peak per axis as F2Dot14 bits, explicit cvt indices or None = all, deltas)
+    pub tuples: Vec<(Vec<i16>, Option<Vec<u8>>, Vec<i16>)>,
+    pub coords: Vec<i16>,
+    pub cvt_len: u8,
+}
+
+pub fn cvar_bytes(c: &CvarCase) -> Vec<u8> {
+    let ac = c.axis_count.clamp(1, 4) as usize;
+    let mut headers = vec![];
+    let mut data = vec![];
+    for (peak, points, deltas) in c.tuples.iter().take(8) {
+        let mut d = vec![];
+        let n = match points {
+            Some(p) => {
+                let p: Vec<u8> = p.iter().take(60).copied().collect();
+                // packed point numbers: count, then one run of byte-sized *differences*
+                d.push(p.len() as u8);
+                if !p.is_empty() {
+                    d.push(p.len() as u8 - 1);
+                    let mut sorted = p.clone();
+                    sorted.sort();
+                    let mut last = 0u8;
+                    for x in &sorted {
+                        d.push(x - last);
+                        last = *x;
+                    }
+                }
+                p.len()
+            }
+            None => {
+                d.push(0); // all points
+                c.cvt_len as usize
+            }
+        };
+        // packed deltas: runs of at most 64 words
+        let vals: Vec<i16> = (0..n).map(|i| if deltas.is_empty() { 0 } else { deltas[i % deltas.len()] }).collect();
+        for chunk in vals.chunks(64) {
+            d.push(0x40 | (chunk.len() as u8 - 1));
+            for v in chunk {
+                d.extend_from_slice(&v.to_be_bytes());
+            }
+        }
+        headers.extend_from_slice(&(d.len() as u16).to_be_bytes());
+        headers.extend_from_slice(&[0xA0, 0x00]); // EMBEDDED_PEAK_TUPLE | PRIVATE_POINT_NUMBERS
+        for a in 0..ac {
+            headers.extend_from_slice(&peak.get(a).copied().unwrap_or(0x4000).to_be_bytes());
+        }
+        data.extend(d);
+    }
+    let count = c.tuples.len().min(8) as u16;
+    let mut t = vec![0, 1, 0, 0];
+    t.extend_from_slice(&count.to_be_bytes());
+    t.extend_from_slice(&((8 + headers.len()) as u16).to_be_bytes());
+    t.extend(headers);
+    t.extend(data);
+    t
+}
+
+pub fn test_cvar(c: &CvarCase, stats: &Stats, strict: bool) -> CaseResult {
+    use read_fonts::{tables::cvar::Cvar, types::F2Dot14, FontData, FontRead};
+    let bytes = cvar_bytes(c);
+    let r = guard::catch(|| {
+        let Ok(cvar) = Cvar::read(FontData::new(&bytes)) else { return (false, 0u64) };
+        let coords: Vec<F2Dot14> = c.coords.iter().map(|b| F2Dot14::from_bits(*b)).collect();
+        let mut out = vec![0i32; c.cvt_len as usize];
+        let ok = cvar.deltas(c.axis_count.clamp(1, 4) as u16, &coords, &mut out).is_ok();
+        let mut n = 0u64;
+        if let Ok(vd) = cvar.variation_data(c.axis_count.clamp(1, 4) as u16) {
+            for t in vd.tuples().take(16) {
+                n += t.deltas().take(1000).count() as u64;
+                let _ = t.compute_scalar(&coords);
+            }
+        }
+        (ok, n)
+    });
+    match r {
+        Ok((ok, n)) => {
+            if ok && n > 0 && c.tuples.len() >= 2 {
+                stats.nontrivial(hash_json(c));
+            }
+            Ok(())
+        }
+        Err(p) => {
+            if strict && !p.is_overflow_or_assert() {
+                return Ok(());
+            }
+            Err(Fail::from_panic(&p))
+        }
+    }
+}
+
+fn cvar_strategy() -> impl Strategy<Value = CvarCase> {
+    let coord = || prop_oneof![Just(0x4000i16), Just(-0x4000), Just(0x2000), Just(0), any::<i16>()];
+    let delta = || prop_oneof![Just(i16::MAX), Just(i16::MIN), Just(0i16), Just(1), Just(-1), any::<i16>()];
+    (
+        1u8..4,
+        proptest::collection::vec((proptest::collection::vec(coord(), 1..4), proptest::option::of(proptest::collection::vec(0u8..12, 1..6)), proptest::collection::vec(delta(), 1..5)), 1..6),
+        proptest::collection::vec(coord(), 0..5),
+        1u8..16,
+    )
+        .prop_map(|(axis_count, tuples, coords, cvt_len)| CvarCase { axis_count, tuples, coords, cvt_len })
+}
+
 pub fn stages(ctx: &Ctx, strict: bool) {
     let ix = corpus_index();
     let q = ctx.quick();
@@ -134,5 +242,6 @@ pub fn stages(ctx: &Ctx, strict: bool) {
     );
     // (c) havoc, file mode and payload mode (payload mode cross-reads bytes as arbitrary table types with generated args)
     let strat = || (havoc_strategy(&ix, 300_000, 8), any::<[u8; 16]>(), prop_oneof![2 => Just(0u8), 1 => Just(1u8)]).prop_map(|(m, ctl, mode)| Case { m, ctl, mode });
+    ctx.prop_stage("cvar-generated", Isolation::Procs, ctx.n(60_000, 600_000), cvar_strategy, |c, s| test_cvar(c, s, strict));
     ctx.prop_stage("havoc", Isolation::Procs, ctx.n(30_000, 200_000), strat, |c, s| test_case(&ix, c, s, strict));
 }
